@@ -56,10 +56,32 @@ theorem C17_set_element_balanced (sh : Shape) (failAt : Nat) :
     (rc = OK ∨ rc = MEMORY_ERROR) ∧ (rc = OK ↔ gained.isSome) ∧ (rc = OK ↔ NoFail st.evs) :=
   set_summary failAt sh
 
+/-- cif_loop_get_names (cif_loop_get_names_internal without normalisation, stored loop with `n` item names) WITH THE
+    PROPOSED ONE-LINE REPAIR (notes/agents/gI-fixes.diff), every `n`, every fault position: no double / invalid free;
+    nothing stays live on failure; on success exactly the array and the `n` strings; CIF_OK exactly when no request
+    failed (for n = 0 — not constructible through the API — the code returns CIF_INVALID_HANDLE without any request). -/
+theorem C17_get_names_balanced (n failAt : Nat) :
+    let (rc, owned, st) := getNames failAt n
+    Balanced st.evs owned ∧ (rc = OK ∨ rc = MEMORY_ERROR ∨ (n = 0 ∧ rc = INVALID_HANDLE)) ∧ (rc ≠ OK → owned = []) ∧
+    (0 < n → (rc = OK ↔ NoFail st.evs)) ∧ (rc = OK → owned.length = n + 1) :=
+  names_summary failAt n
+
+/-- cif_loop_get_names AS THE CODE IS (open finding F31/ladder/names/node-leak; the pinned model is the one compared with
+    the real function by family `ladder`): for every `n` and every fault position, exactly `namesLeak failAt n` stays live
+    beyond what the caller owns — the list node obtained by request `failAt - 1` whenever the failed request is the
+    allocation of a name string (an even request among the first 2n) — and in those cases the run is NOT balanced:
+    the call returns CIF_MEMORY_ERROR, hands nothing to the caller and leaks that node.  (At every other fault position
+    `namesLeak` is empty: the ladder is balanced there.) -/
+theorem C17_cex_get_names_leak (n failAt : Nat) :
+    let (rc, owned, st) := getNamesPinned failAt n
+    Balanced st.evs (owned ++ namesLeak failAt n) ∧
+    (namesLeak failAt n ≠ [] → rc = MEMORY_ERROR ∧ owned = [] ∧ ¬ Balanced st.evs owned) :=
+  names_pinned_summary failAt n
+
 /-- the fault position is reached iff it is one of the allocation requests of the fault-free run
     (1 ≤ failAt ≤ their number); then exactly one `fail` event occurs — the request number `failAt` — and it is the
     last request of the call (the ladders only release afterwards); otherwise the run makes the same number of
-    requests as the fault-free run.  For all four ladders. -/
+    requests as the fault-free run.  For all five ladders (get_names: as the code is and repaired). -/
 theorem C17_fault_reached_iff (failAt : Nat) :
     (∀ n, let st := (dupUstrings failAt n).2.2
           (¬ NoFail st.evs ↔ 1 ≤ failAt ∧ failAt ≤ (dupUstrings 0 n).2.2.count) ∧
@@ -76,11 +98,16 @@ theorem C17_fault_reached_iff (failAt : Nat) :
     (∀ sh, let st := (setElement failAt sh).2.2
           (¬ NoFail st.evs ↔ 1 ≤ failAt ∧ failAt ≤ (setElement 0 sh).2.2.count) ∧
           (¬ NoFail st.evs → failIds st.evs = [failAt] ∧ st.count = failAt) ∧
-          (NoFail st.evs → st.count = (setElement 0 sh).2.2.count)) :=
+          (NoFail st.evs → st.count = (setElement 0 sh).2.2.count)) ∧
+    (∀ fixed n, let st := (getNamesGen fixed failAt n).2.2
+          (¬ NoFail st.evs ↔ 1 ≤ failAt ∧ failAt ≤ (getNamesGen fixed 0 n).2.2.count) ∧
+          (¬ NoFail st.evs → failIds st.evs = [failAt] ∧ st.count = failAt) ∧
+          (NoFail st.evs → st.count = (getNamesGen fixed 0 n).2.2.count)) :=
   ⟨fun n => fault_of_outcomes (dup_outcome 0 n) (dup_outcome failAt n),
    fun sh => fault_of_outcomes (clone_outcome 0 sh) (clone_outcome failAt sh),
    fun full sh => fault_of_outcomes (insert_outcome 0 full sh) (insert_outcome failAt full sh),
-   fun sh => fault_of_outcomes (set_outcome 0 sh) (set_outcome failAt sh)⟩
+   fun sh => fault_of_outcomes (set_outcome 0 sh) (set_outcome failAt sh),
+   fun fixed n => fault_of_outcomes (names_outcome fixed 0 n) (names_outcome fixed failAt n)⟩
 
 -- ---------------------------------------------------------------------------------------------------------------
 -- non-vacuity: concrete runs in which a request really fails and blocks really are released
@@ -128,6 +155,18 @@ example : (setElement 0 (.lst [.numb true, .chr])).2.2.count = 7 ∧
     (setElement 5 (.lst [.numb true, .chr])).2.2.evs =
       [.alloc 1, .alloc 2, .alloc 3, .alloc 4, .fail 5, .free 4, .free 3, .free 2, .free 1] ∧
     final (setElement 5 (.lst [.numb true, .chr])).2.2.evs = some [] := by decide +kernel
+
+/-- cif_loop_get_names on 2 names, the 4th request (the 2nd name's string) fails.  As the code is: the first entry is
+    released (string 2, node 1) but node 3 stays live — the checker reports the leak; repaired: node 3 is released. -/
+example : (getNamesPinned 4 2).1 = MEMORY_ERROR ∧
+    (getNamesPinned 4 2).2.2.evs = [.alloc 1, .alloc 2, .alloc 3, .fail 4, .free 2, .free 1] ∧
+    final (getNamesPinned 4 2).2.2.evs = some [3] ∧ namesLeak 4 2 = [3] ∧
+    (getNames 4 2).2.2.evs = [.alloc 1, .alloc 2, .alloc 3, .fail 4, .free 3, .free 2, .free 1] ∧
+    final (getNames 4 2).2.2.evs = some [] := by decide
+
+/-- …and without a fault: nodes 1, 3 released, the strings 2, 4 and the array 5 owned by the caller -/
+example : (getNames 0 2).1 = OK ∧ (getNames 0 2).2.1 = [5, 4, 2] ∧ final (getNames 0 2).2.2.evs = some [5, 4, 2] := by
+  decide
 
 /-- the specification is not trivially satisfiable: a double free, a free of a block never obtained and a leak are
     all rejected -/
